@@ -151,6 +151,13 @@ func runResJoin(c *core.Ctx) {
 					c.Ok(key, call.Pos(), "(a) the child's channel is returned directly")
 					continue
 				}
+				// (c') handed straight to a helper that asserts it is nil: assumeNil(child.Abort(iface))
+				if outer, ok := g.Parent(call).(*ast.CallExpr); ok && len(outer.Args) == 1 && an.Unparen(outer.Args[0]) == ast.Expr(call) {
+					if h := e.Ix.FuncOf(an.CalleeFunc(info, outer)); h != nil && panicsOnNonNilParam(e, h) {
+						c.Ok(key, call.Pos(), "(c) the child's channel is asserted nil by a helper that panics otherwise")
+						continue
+					}
+				}
 				var ch types.Object
 				if as, ok := g.Parent(call).(*ast.AssignStmt); ok && len(as.Lhs) == 1 && len(as.Rhs) == 1 {
 					ch = an.ObjOf(info, as.Lhs[0])
